@@ -1,7 +1,7 @@
 """C01 - parsing and rendering are total and terminate (E1: words, lines, edit-1 neighbourhoods, pumping)."""
 import io
 import string
-from mc import core, configs, spaces
+from mc import core, configs, spaces, trees, inlines
 
 ID = 'C01'
 TECHNIQUE = ('exhaustive enumeration of all words over 8 cluster alphabets and a 34-line alphabet up to a length bound, '
@@ -32,6 +32,7 @@ def describe(tier):
     return dict(word_depth=t['words'], full_config_depth=FULL_DEPTH[tier], alphabets=spaces.ALPHABETS,
                 line_alphabet=spaces.LINES + spaces.LINES_C01_EXTRA, max_lines=t['lines'],
                 edit1=dict(tokens=t['edit'][0], max_example_length=t['edit'][1]),
+                generated_trees=dict(max_nodes=3 if tier == 'quick' else 4, spelling='canonical'), inline_menu='every container around 1-2 leaves in 5 block contexts',
                 pump=dict(max_w_tokens=t['pump'][0], repetitions=[32, 100, 'len~%d chars' % (t['pump'][1] * 4)]),
                 configurations=configs.n_configs(configs.GROUPS), core_configurations=configs.n_configs(configs.GROUPS_CORE),
                 timeout_s=10)
@@ -53,6 +54,13 @@ def jobs(tier):
         js.append(('edit', lo, lo + 8, t['edit'][0], t['edit'][1]))
     for ui in range(len(spaces.PUMP_U)):
         js.append(('pump', ui, t['pump'][0], t['pump'][1]))
+    nt = 3 if tier == 'quick' else 4
+    for n in range(1, nt + 1):
+        ns = 1 if n < 3 else (16 if n == 3 else 128)
+        for sh in range(ns):
+            js.append(('trees', n, 2 if tier == 'quick' else 3, sh, ns))
+    for ci in range(len(inlines.CONTAINERS)):
+        js.append(('inlines', ci))
     return js
 
 
@@ -189,6 +197,21 @@ def run_job(job):
                 seen.add(text)
                 run_text(r, text, configs.GROUPS_CORE, space='edit1')
             r.sample(dict(space='edit1', example=ex['example'], variants=len(seen)), 1)
+    elif kind == 'trees':
+        _, n, depth, sh, ns = job
+        for i, blocks in enumerate(trees.all_docs(n, depth)):
+            if i % ns != sh:
+                continue
+            md, rec = trees.to_markdown(blocks, trees.DEFAULTS)
+            run_text(r, md, configs.GROUPS if n <= 3 else configs.GROUPS_CORE, space='trees')
+        r.sample(dict(space='trees', nodes=n), 1)
+    elif kind == 'inlines':
+        for node, key in inlines.enumerate_family('depth1-single', job[1]):
+            for cx in range(len(inlines.CONTEXT_NAMES)):
+                ctx = inlines.in_context(cx, node)
+                if ctx is not None:
+                    run_text(r, ctx[0], configs.GROUPS_CORE if cx else configs.GROUPS, space='inlines')
+        r.sample(dict(space='inlines', container=inlines.CONTAINERS[job[1]][0]), 1)
     elif kind == 'pump':
         _, ui, wlen, big = job
         u = spaces.PUMP_U[ui]
